@@ -76,8 +76,9 @@ func (c DataCoding) Validate(input string) bool {
 	if c == UCS2Coding {
 		return true
 	}
+	alphabet := alphabetMap[c]
 	for _, r := range input {
-		if !Is(alphabetMap[c], r) {
+		if alphabet == nil || !Is(alphabet, r) {
 			return false
 		}
 	}
